@@ -346,7 +346,31 @@ def rule_no_inplace_growth_(ctx: Ctx, rep: Report) -> None:
     rule_no_inplace_growth(ctx, rep, "C07.no_inplace_growth", ('btclib.bip32',), 1)
 
 
+def rule_key_layout(ctx: Ctx, rep: Report) -> None:
+    """C07.key_layout: the 78 bytes of an extended key are read as they are
+    written: depth as one unsigned byte (keys at depth 128..255 are keys), the
+    index as four bytes big-endian unsigned (C05's layout comparison, for
+    BIP32KeyData)."""
+    from rules import C05
+    from sa.layout import read_atoms as ra, write_atoms as wa
+    ci = ctx.cls(f"{B}.BIP32KeyData")
+    tmp = Report("C05", rep.tier)
+    tmp.quiet = True
+    C05._cmp_int_atoms(tmp, "C07.key_layout", "BIP32KeyData", ci.methods["serialize"], ci.methods["parse"], wa(ctx, ci.methods["serialize"]), ra(ctx, ci.methods["parse"]))
+    for o in tmp.obs:
+        rep.ob("C07.key_layout", o.instance, o.held, o.site, o.detail)
+    for u in tmp.inconclusive:
+        rep.unknown("C07.key_layout", u["instance"], u["site"], u["why"])
+    par = ci.methods["parse"]
+    depth_reads = [x for x in own_nodes(par.node) if isinstance(x, ast.keyword) and x.arg == "depth"]
+    for k in depth_reads:
+        ok = isinstance(k.value, ast.Subscript) and not isinstance(k.value.slice, ast.Slice)
+        rep.ob("C07.key_layout", "parse:depth_is_one_unsigned_byte", ok, par.where(k.value), "depth = key_bin[4]: a byte, 0..255" if ok else f"depth is read as `{norm(k.value)}`")
+    rep.floor("C07.key_layout", 1)
+
+
 RULES = [
+    ("C07.key_layout", rule_key_layout),
     ("C07.no_inplace_growth", rule_no_inplace_growth_),
     ("C07.params_forwarded", rule_params_forwarded_),
     ("C07.own_fields", rule_own_fields),
